@@ -15,7 +15,7 @@ LINES = ["line %d %s" % (i, "é€\U0001d11e" * (i % 3) + "x" * (i * 7 % 11)) fo
 SCRIPTS = {"S3a": {0: [2], 1: [7], 2: [4]}, "S3b": {0: [2, 5], 1: [7, 1], 2: [4, 8]}, "S4": {0: [2], 1: [7], 2: [4], 3: [9]}}
 # how a process performs its accesses (the model only knows which line is wanted): plain indexing, iteration from the start
 # (the i-th next() wants line i), or open() / `with` on the inherited object before the first access
-STYLES = {"index": {}, "iter1": {1: "iter"}, "open2": {2: "open"}, "mixed": {1: "iter", 2: "open"}}
+STYLES = {"index": {}, "iter1": {1: "iter"}, "open2": {2: "open"}, "mixed": {1: "iter", 2: "open"}, "preread": {0: "preread"}}
 ITER_SCRIPTS = {"S3a": {0: [2], 1: [0], 2: [4]}, "S3b": {0: [2, 5], 1: [0, 1], 2: [4, 8]}}
 _CTX = {}
 
@@ -80,6 +80,13 @@ def _job(args):
                 cls = NoReopen
             obj = cls(path)
         obj.open()
+        if how.get(0) == "preread":
+            # the parent uses the file before forking: the line just before the one child 1 will ask for first
+            k = scripts[1][0] - 1
+            if variant == "map":
+                obj["k%d" % k]
+            else:
+                obj[k]
         return obj
 
     def access(obj, key):
@@ -138,7 +145,7 @@ def run(ctx):
         jobs += [(variant, "S3b", s, d, False) for s in (s3b if n >= len(s3b) else rnd.sample(s3b, n))]
     jobs += [("buffered", "S4", s, d, False) for s in (rnd.sample(s4, 200) if quick else s4)]
     # other ways of using the inherited object in a child: iteration, open() / with before the first access
-    for style in ("iter1", "open2", "mixed"):
+    for style in ("iter1", "open2", "mixed", "preread"):
         for variant in ("buffered", "mmap", "map"):
             jobs += [(variant, "S3a", s, d, False, style) for s in s3a]
             jobs += [(variant, "S3b", s, d, False, style) for s in rnd.sample(s3b, 60 if quick else 2000)]
